@@ -304,6 +304,29 @@ def run(eng, rep) -> None:
                 vals = defs.values(root.id)
                 is_copy = bool(vals) and all(isinstance(v, ast.Call) and (dotted(v.func) or "").split(".")[-1] in ("copy", "deepcopy", "replace", "list", "sorted", "dict", "set", "tuple") for k, v, s_ in vals if k == "assign")
                 fresh = bool(vals) and all(isinstance(v, (ast.List, ast.Dict, ast.ListComp)) or (isinstance(v, ast.Call) and isinstance(eng.T.fn(f).of(v), tuple) and eng.T.fn(f).of(v)[0] == "inst") for k, v, s_ in vals if k == "assign")
+                if not (is_copy or fresh):
+                    # what kind of object is it? a list of names, a dict of ints ... handed down by the caller is not a schema object
+                    from ..types_lite import members as _members
+                    occ = next((x for x in walk_local(f.node) if isinstance(x, ast.Name) and x.id == root.id), root)
+                    tt = eng.T.fn(f).of(occ)
+
+                    def schema_free(t) -> bool:
+                        ms = _members(t)
+                        if not ms:
+                            return False
+                        for u in ms:
+                            if u[0] in ("prim", "none"):
+                                continue
+                            if u[0] in ("list", "set", "dict", "tuple", "gen"):
+                                subs = [x for x in u[1:] if x is not None]
+                                subs = [y for x in subs for y in (x if (isinstance(x, tuple) and x and isinstance(x[0], tuple)) else [x])]
+                                if subs and all(schema_free(x) for x in subs):
+                                    continue
+                            return False
+                        return True
+                    if schema_free(tt):
+                        rep.ok("R04.6", f.file, f.qual, norm(st, 60), "the object written is a plain container of names/numbers (%s), not a schema object" % root.id)
+                        continue
                 rep.check(is_copy or fresh, "R04.6", f.file, f.qual, norm(st, 60), "writes a copy / a fresh local", "layout mutates a schema object (%s): the caller's schema changes as a side effect" % root.id)
 
 
